@@ -21,14 +21,22 @@ def load_domains():
     return json.load(open(path))['cells']
 
 
+SSA_ONLY = ('6.3', '7.0', '7.1', '8.0')          # unsound renaming (known finding): only single-assignment profiles
+SSA_PROFILES = ('ssa', 'ssald', 'ssamem')
+FEATURE_WHITELIST = {'4': ['cold-store-then-load'], '5': ['cold-store-then-load']}
+DEFAULT_FEATURES = []      # feature exclusions proved unreliable for the 6.x+ variants: whole cells only
+
+
 def cell_rule(cells, profile, variant, par):
-    """None = cell outside the domain; [] = whole cell; [F..] = programs without feature(s) F"""
+    """None = cell outside the domain; [] = whole cell; [F] = programs without feature F"""
+    if variant in SSA_ONLY and profile not in SSA_PROFILES:
+        return None
     c = cells.get('%s|%s|%d' % (profile, variant, par))
     if not c or c['n'] < MIN_N:
         return None
     if c['fail'] == 0:
         return []
-    for F in S.FEATURES:
+    for F in FEATURE_WHITELIST.get(variant, DEFAULT_FEATURES):
         if c['fail_without'].get(F, 0) == 0 and c['n_without'].get(F, 0) >= MIN_N_WITHOUT:
             return [F]
     return None
@@ -60,7 +68,7 @@ def replay_known(ctx, pid, profiles):
     for f in known:
         for key in f.get('witness_cells', []):
             w = wits.get(key)
-            if w and key.split('|')[0] in profiles:
+            if w:
                 progs.append(prog_from_witness(w))
                 meta.append((f, key, w))
                 break
